@@ -413,6 +413,7 @@ impl<Store: StorageData> DbImpl<Store> {
         &mut self,
         f: impl FnOnce(&mut TransactionMut<Store>) -> Result<T, E>,
     ) -> Result<T, E> {
+        let storage_transaction = self.storage.transaction();
         let mut transaction = TransactionMut::new(&mut *self);
         let result = f(&mut transaction);
 
@@ -421,6 +422,8 @@ impl<Store: StorageData> DbImpl<Store> {
         } else {
             transaction.rollback()?;
         }
+
+        self.storage.commit(storage_transaction)?;
 
         result
     }
